@@ -1406,6 +1406,57 @@ def rule_r10(prog, res):
               c10.rule_r2, prog, Result, ef)
 
 
+# ------------------------------------------------------------------ R11
+def rule_r11(prog, res):
+    res.rule('R11', 'every step of handle_rpc that runs user code or lazy '
+             'serialization sits in a try that funnels any exception into '
+             'handle_error (one start_response, context closed)')
+    w = prog.cls('spyne.server.wsgi:WsgiApplication')
+    f = w.methods.get('handle_rpc')
+    if f is None:
+        raise AnalysisError('WsgiApplication.handle_rpc', 'not found')
+    sites = []
+    for c in calls_in(f.node):
+        nm = call_name(c)
+        if nm == 'next' and isinstance(c.func, ast.Name) and c.args and \
+                unparse(c.args[0]) == 'g':
+            sites.append((c, 'the prefetch of a generator result'))
+        elif nm == 'get_out_string':
+            sites.append((c, 'serialization of the response'))
+        elif nm == 'join' and c.args and 'out_string' in unparse(c.args[0]):
+            sites.append((c, 'materialisation of a lazy out_string'))
+    res.floor('R11', 'steps of handle_rpc that run user code', len(sites), 3)
+    for c, what in sites:
+        funnel = None
+        p_ = c
+        while p_ is not None and p_ is not f.node:
+            par = getattr(p_, '_parent', None)
+            if isinstance(par, ast.Try) and p_ in par.body:
+                for h in par.handlers:
+                    names = unparse(h.type) if h.type is not None else ''
+                    if h.type is None or 'Exception' in names.split(
+                            '.')[-1:] or names in ('Exception',
+                                                   'BaseException'):
+                        if any(call_name(x) == 'handle_error'
+                               for st in h.body for x in ast.walk(st)
+                               if isinstance(x, ast.Call)):
+                            funnel = h
+            p_ = par
+        where = '%s:%d' % (f.module.relpath, c.lineno)
+        res.ob('R11', where, 'handle_rpc: %s %s' % (what, (
+            'is funnelled into handle_error') if funnel is not None else
+            'is outside every funnelling try'),
+            'ok' if funnel is not None else 'VIOLATED')
+        if funnel is None:
+            res.finding('R11', 'WsgiApplication.handle_rpc|unfunnelled|%s' %
+                        unparse(c)[:30], where, '%s (%s) runs user code '
+                        'outside every try that hands the exception to '
+                        'handle_error: a generator body or a lazy serializer '
+                        'that raises escapes the WSGI callable - '
+                        'start_response is never called and the context '
+                        'stays open' % (unparse(c)[:40], what))
+
+
 def run(prog, res, tier):
     res.run_rule(rule_r1, prog, res)
     res.run_rule(rule_r2, prog, res)
@@ -1417,11 +1468,28 @@ def run(prog, res, tier):
     res.run_rule(rule_r8, prog, res)
     res.run_rule(rule_r9, prog, res)
     res.run_rule(rule_r10, prog, res)
+    res.run_rule(rule_r11, prog, res)
 
 
 _W = 'spyne/server/wsgi.py'
 
 MUTANTS = [
+    Mutant('prefetch-outside-funnel', 'R11', 'fire', 'spyne/server/wsgi.py',
+           in_func('WsgiApplication.handle_rpc',
+                   "            except Exception as e:\n                # the "
+                   "body of a generator function starts to run here\n",
+                   "            except KeyError as e:\n"), 'unfunnelled'),
+    Mutant('join-outside-funnel', 'R11', 'fire', 'spyne/server/wsgi.py',
+           in_func('WsgiApplication.handle_rpc',
+                   r"(            if not self\.chunked:\n                # a "
+                   r"lazy out_string runs \(the rest of\) the user code here"
+                   r"\n                p_ctx\.out_string = \[b''\.join\("
+                   r"p_ctx\.out_string\)\]\n\n)(.*?)(        if isinstance\("
+                   r"p_ctx\.out_protocol, HttpRpc\))",
+                   lambda m_: m_.group(2) + m_.group(1).replace(
+                       "            if", "        if").replace(
+                       "                ", "            ") + m_.group(3),
+                   regex=True), 'unfunnelled'),
     Mutant('listener-before-close', 'R10', 'fire', 'spyne/server/wsgi.py',
            in_func('WsgiApplication.__finalize',
                    "        p_ctx.close()\n        self.event_manager."
@@ -1463,10 +1531,11 @@ MUTANTS = [
            'close'),
     Mutant('iterator-before-join', 'R8', 'fire', _W,
            in_func('WsgiApplication.handle_rpc',
-                   "        if self.chunked:\n",
+                   "        try:\n            self.get_out_string(p_ctx)\n",
                    "        retval = _ClosingIterator(p_ctx.out_string, "
                    "lambda: self.__finalize(p_ctx))\n"
-                   "        if self.chunked:\n"), 'iterator-stale'),
+                   "        try:\n            self.get_out_string(p_ctx)\n"),
+           'iterator-stale'),
     Mutant('redirect-body-as-text', 'R3', 'fire', 'spyne/const/http.py',
            lambda src: src.replace(
                "            \".\",\n        )\n    ))",
